@@ -3,7 +3,7 @@ from .. import boot as simboot
 from ..world_agg import AggWorld
 
 PROP = 'C08'
-QUICK = (192, 60, 60.0)
+QUICK = (384, 60, 60.0)
 THOROUGH = (1600, 100, 840.0)
 SHRINK_LISTS = ['ops']
 SHRINK_DICTS = []
